@@ -94,21 +94,91 @@ theorem C13_parallel_perm_serial (cls : Kwargs κ → Prog) (maxSteps : Nat) (pe
     List.Perm.flatMap_right _ h⟩
 
 /-- Each model is stepped until it stops or has taken `max_steps` steps, and what `batch_run` then reads is
-    the state of the same model constructed and stepped by hand `k ≤ max_steps` times.  (`step ∉ body`: the
-    user's step does not call the wrapped `step` again.) -/
+    the state of the same model constructed and stepped by hand (`hand p k` = the history `init ++ k × (step :: body)`
+    run on a fresh model) exactly `k = stepsTaken p max_steps ≤ max_steps` times — and `k` is pinned: at every
+    `j < k` the hand-stepped model was still running and below `max_steps` (no step is skipped, the loop does not
+    run on after a stop), at `k` it has stopped or reached `max_steps`, and `k` is the only number with these two
+    properties.  (`step ∉ body`: the user's step does not call the wrapped `step` again.) -/
 theorem C13_steps_taken (p : Prog) (maxSteps : Nat) :
     ((runModel p maxSteps).running = false ∨ maxSteps ≤ (runModel p maxSteps).steps) ∧
     (Op.step ∉ p.body → (runModel p maxSteps).steps ≤ max maxSteps (construct p).steps) ∧
     (Op.step ∉ p.body → Op.step ∉ p.init → (runModel p maxSteps).steps ≤ maxSteps) ∧
-    ∃ k ≤ maxSteps, runModel p maxSteps = run p.cfg (Collect.init p.cfg p.tables) (histOf p k) := by
-  refine ⟨loop_done p maxSteps maxSteps _ (by omega), fun h => loop_steps_le p maxSteps h _ _, ?_,
-    runModel_eq_run p maxSteps⟩
-  intro hb hi
-  have h0 : (construct p).steps = 0 := by
-    rw [construct, run_steps_eq _ _ _ hi]; rfl
-  have := loop_steps_le p maxSteps hb maxSteps (construct p)
-  rw [h0] at this
-  simpa [runModel] using this
+    ∃ k ≤ maxSteps, k = stepsTaken p maxSteps ∧
+      runModel p maxSteps = run p.cfg (Collect.init p.cfg p.tables) (histOf p k) ∧
+      (∀ j < k, (hand p j).running = true ∧ (hand p j).steps < maxSteps) ∧
+      ((hand p k).running = false ∨ maxSteps ≤ (hand p k).steps) ∧
+      ∀ k', (∀ j < k', (hand p j).running = true ∧ (hand p j).steps < maxSteps) →
+        ((hand p k').running = false ∨ maxSteps ≤ (hand p k').steps) → k' = k := by
+  refine ⟨loop_done p maxSteps maxSteps _ (by omega), fun h => loop_steps_le p maxSteps h _ _, ?_, ?_⟩
+  · intro hb hi
+    have h0 : (construct p).steps = 0 := by
+      rw [construct, run_steps_eq _ _ _ hi]; rfl
+    have := loop_steps_le p maxSteps hb maxSteps (construct p)
+    rw [h0] at this
+    simpa [runModel] using this
+  · obtain ⟨k, hk, he, hmin, hstop⟩ := runModel_eq_run_min p maxSteps
+    have hgo : ∀ s : State, goOn maxSteps s = true ↔ (s.running = true ∧ s.steps < maxSteps) := by
+      intro s; simp [goOn]
+    have hst : ∀ s : State, goOn maxSteps s = false ↔ (s.running = false ∨ maxSteps ≤ s.steps) := by
+      intro s
+      unfold goOn
+      cases s.running <;> simp
+    have hk' : stepsTaken p maxSteps = k := by
+      have h1 := (runModel_eq_hand p maxSteps)
+      -- both are the first hand-stepped state at which the loop condition fails
+      unfold stepsTaken
+      rw [find?_range_first _ _ k (by omega) (by simp [hstop]) (fun j hj => by simp [hmin j hj])]
+      rfl
+    refine ⟨k, hk, hk'.symm, he, fun j hj => (hgo _).mp (hmin j hj), (hst _).mp hstop, ?_⟩
+    intro k' hmin' hstop'
+    rcases Nat.lt_trichotomy k' k with h | h | h
+    · have := (hgo _).mp (hmin k' h)
+      rcases hstop' with h1 | h1
+      · rw [h1] at this; exact absurd this.1 (by simp)
+      · omega
+    · exact h
+    · have := hmin' k h
+      rcases (hst _).mp hstop with h1 | h1
+      · rw [h1] at this; exact absurd this.1 (by simp)
+      · omega
+
+/-- **Exactly these rows.**  For a run whose reporters never raise (`Total`) and a period ≠ 0, `_model_run_func`
+    returns — no row more, no row less, in this order — for each position `i` that `picks` selects among the stored
+    collections `snaps` of the model stepped by hand `stepsTaken` times (`C13_steps_taken`; the positions are
+    characterised by `C13_reported_collections`): one row per agent row recorded under that collection's step
+    (`rowsOfSnap`: RunId, iteration, Step = the collection's step, the kwargs, the model reporters evaluated on the
+    collection's snapshot, AgentID and agent values), or a single row without agent part when nothing is recorded. -/
+theorem C13_run_rows_exact (cls : Kwargs κ → Prog) (maxSteps : Nat) (period : Int) (hp : period ≠ 0) (r : Run κ)
+    (hT : Total (cls r.kwargs).cfg) :
+    let p := cls r.kwargs
+    let snaps := storedSnaps p.cfg (Collect.init p.cfg p.tables) (histOf p (stepsTaken p maxSteps))
+    ∃ ps, picks snaps.length period = .ok ps ∧
+      runRows cls maxSteps period r = .ok (ps.flatMap fun i => match snaps[i]? with
+        | some sn => rowsOfSnap p.cfg snaps r sn
+        | none => []) ∧
+      (∀ i ∈ ps, ∃ sn, snaps[i]? = some sn ∧ rowsOfSnap p.cfg snaps r sn ≠ []) ∧
+      runRows cls maxSteps period r = .ok (rowsSpec cls maxSteps period r) := by
+  intro p snaps
+  obtain ⟨ps, hps, hmem, _⟩ := picks_spec snaps.length period hp
+  have hr := runRows_eq_rowsSpec cls maxSteps period hp r hT
+  refine ⟨ps, hps, ?_, ?_, hr⟩
+  · rw [hr]; simp only [rowsSpec]
+    show Except.ok (match picks snaps.length period with
+      | .ok ps => ps.flatMap fun i => match snaps[i]? with
+        | some sn => rowsOfSnap p.cfg snaps r sn
+        | none => []
+      | .error _ => []) = _
+    rw [hps]
+  · intro i hi
+    have hlt := ((hmem i).mp hi).1
+    refine ⟨snaps[i], List.getElem?_eq_getElem hlt, ?_⟩
+    obtain ⟨row, hrow, _⟩ := rowsOfColl_has_row r snaps[i].steps (p.cfg.mreps.map fun m => m.eval snaps[i])
+      (if p.cfg.areps.isEmpty then []
+       else ((lastWith (fun x => x.steps == snaps[i].steps) snaps).map (agentRows p.cfg)).getD [])
+    intro e
+    unfold rowsOfSnap at e
+    rw [e] at hrow
+    simp at hrow
 
 /-- Every row of a run repeats the run's id, iteration and parameters, and its Step label, model-level
     values and agent-level values all come from one collection `sn` of the model stepped by hand: the label
@@ -275,6 +345,20 @@ theorem C13_degenerate_limits (p : Prog) (n : Nat) (period : Int) :
     unfold picks
     by_cases hneg : period < 0 <;> simp [hp0, hneg]
 
+/-- **`batch_run` itself.**  For a class whose reporters never raise, re-iterable parameter values and a period ≠ 0,
+    `batch_run(number_processes=1)` returns exactly the concatenation, over the work list `runList kws iterations`
+    (`C13_run_list`: every kwargs dict once per iteration, RunIds `0 … N-1`), of each run's rows `rowsSpec` — the rows
+    `C13_run_rows_exact` writes out.  Nothing is dropped, duplicated or reordered. -/
+theorem C13_batch_run_exact (cls : Kwargs κ → Prog) (params : List (Nat × PVal κ)) (n maxSteps : Nat) (period : Int)
+    (hp : period ≠ 0) (hT : ∀ kw, Total (cls kw).cfg) (hre : ∀ p ∈ params, ∀ vs, p.2 ≠ .once vs)
+    (kws : List (Kwargs κ)) (hk : makeKwargs params = .ok kws) :
+    batchRun cls params n maxSteps period = .ok ((runList kws n).flatMap (rowsSpec cls maxSteps period)) := by
+  rw [(C13_iterations_reiterable cls params n maxSteps period hre).1 kws hk, batchOrder_total cls maxSteps period hp]
+  have : ∀ r : Run κ, runRowsT cls maxSteps period r = rowsSpec cls maxSteps period r := by
+    intro r
+    simp only [runRowsT, runRows_eq_rowsSpec cls maxSteps period hp r (hT r.kwargs)]
+  rw [funext this]
+
 /-! non-vacuity: a class that collects at construction and in step and stops early for one parameter value -/
 section Example
 def exCls (kw : Kwargs Nat) : Prog :=
@@ -298,6 +382,14 @@ example : (batchRun exCls [(0, PVal.iter [1, 5])] 2 3 (-1)).toOption.map (·.map
 example : (batchRun exCls [(0, PVal.scalar 5)] 1 0 7).toOption.map (·.map fun b => (b.step, b.agent)) =
     some [(0, some (1, [.int 5]))] := by rfl
 example : picks 5 9 = .ok [0, 4] := by rfl
+/-! the pinned step count and the written-out rows: the class stops at step `n` (n = 1: one step; n = 5 with
+    max_steps 3: three steps); `rowsSpec` of the second run, period 2: collections 0, 2 and the last (3) -/
+example : (stepsTaken (exCls [(0, 1)]) 3, stepsTaken (exCls [(0, 5)]) 3, stepsTaken (exCls [(0, 5)]) 0) = (1, 3, 0) := by decide
+example : (rowsSpec exCls 3 2 ⟨1, 0, [(0, 5)]⟩).map (fun b => (b.runId, b.step, b.model, b.agent)) =
+    [(1, 0, [.int 0], some (1, [.int 5])), (1, 2, [.int 2], some (1, [.int 9])), (1, 3, [.int 3], some (1, [.int 9]))] := by rfl
+example : Total (exCls [(0, 5)]).cfg :=
+  ⟨by intro r hr sn; simp [exCls] at hr; subst hr; rfl, by intro r hr sn ag; simp [exCls] at hr; subst hr; rfl,
+   by intro x hx; simp [exCls] at hx⟩
 /-! outside the quantifier: a `functools.partial` reporter that raises while attribute 0 is missing, in a model
     whose step swallows the exception of its collect.  The first collect (step 1) leaves `m0 = [1]` and nothing
     else; from then on position `i` of `m0` belongs to collection `i - 1` of `m1`: rows pair the model values of
